@@ -109,12 +109,12 @@ func (c *Ctx) FuncOfLit(lit *ast.FuncLit) *ssa.Function {
 
 // switchInfo describes one switch statement over a constant-valued tag.
 type switchInfo struct {
-	Stmt       *ast.SwitchStmt
-	Cases      map[int64]*ast.CaseClause // constant case values
-	CaseNames  map[int64]string
-	Default    *ast.CaseClause
-	NonConst   bool // some case expression is not a constant
-	TagType    types.Type
+	Stmt      *ast.SwitchStmt
+	Cases     map[int64]*ast.CaseClause // constant case values
+	CaseNames map[int64]string
+	Default   *ast.CaseClause
+	NonConst  bool // some case expression is not a constant
+	TagType   types.Type
 }
 
 // SwitchesOn returns the switch statements inside node whose tag has the given
